@@ -602,13 +602,17 @@ func init() {
 	}
 }
 
-func replayCase(c *rp.Ctx, i int, raw json.RawMessage) rp.Result {
+func replayCase(c *rp.Ctx, idx int, raw json.RawMessage) rp.Result {
 	var cs wsCase
 	if err := json.Unmarshal(raw, &cs); err != nil {
 		panic(err)
 	}
+	// every per-case choice (API, segmentation, buffer, cut offsets) derives from the case's CONTENT, not from
+	// its position in the file: a failing case must fail the same way when vcheck replays it alone
+	i := rp.ContentHash(raw) % 1000003
+	_ = idx
 	if len(cs.Steps) == 0 || len(cs.End) == 0 || (cs.Role != "server" && cs.Role != "client") {
-		rp.Bug("malformed case %d", i)
+		rp.Bug("malformed case %d", idx)
 	}
 	thorough := c.Tier == "thorough"
 	var wire []byte
@@ -657,8 +661,10 @@ func replayCase(c *rp.Ctx, i int, raw json.RawMessage) rp.Result {
 	}
 
 	// (1b) the application has sent its own Close before reading: the same messages are delivered
-	if (i+c.Seed)%2 == 0 {
-		v := variant{API: i % 3, Seg: segs[i%3], ReadBuf: []int{0, 125}[i%2], LocalClose: true}
+	{
+		// chosen from the case's own content, so that the case behaves the same when it is replayed alone
+		h := len(wire) + len(cs.Steps) + c.Seed
+		v := variant{API: h % 3, Seg: segs[h%3], ReadBuf: []int{0, 125}[h%2], LocalClose: true}
 		if len(wire) > 40000 && v.Seg == "one" {
 			v.Seg = "whole"
 		}
